@@ -132,6 +132,32 @@ Fixpoint split_colon_aux (s cur : string) : list string :=
   end.
 Definition split_colon (s : string) : list string := split_colon_aux s "".
 
+(* s.split(c) *)
+Fixpoint split_on_aux (c : ascii) (s cur : string) : list string :=
+  match s with
+  | EmptyString => [srev cur]
+  | String d r => if Ascii.eqb d c then srev cur :: split_on_aux c r "" else split_on_aux c r (String d cur)
+  end.
+Definition split_on (c : ascii) (s : string) : list string := split_on_aux c s "".
+
+(* s[n:] *)
+Fixpoint drop_n (n : nat) (s : string) : string :=
+  match n, s with
+  | S k, String _ r => drop_n k r
+  | _, _ => s
+  end.
+
+(* s.lstrip(':') *)
+Fixpoint lstrip_colon (s : string) : string :=
+  match s with
+  | String ":" r => lstrip_colon r
+  | _ => s
+  end.
+
+(* the particles an IMP keyword names: elt[3:].lstrip(':').split(',') *)
+Definition imp_particles (elt : string) : list string :=
+  split_on "," (lstrip_colon (drop_n 3 elt)).
+
 (* ---- structural lemmas ---- *)
 Lemma last_char_app s c : last_char (s ++ String c "") = Some c.
 Proof.
